@@ -6,8 +6,12 @@
 //   jwk     default JWK provisioner of the fixture
 //   jwktpl  JWK with a custom template = default leaf + "extensions": user data extensions
 //   jwkdis  JWK with claim disableSmallstepExtensions
+//   jwkc1…5 JWK with other combinations of the boolean claims (see provClaims)
+// One authority per entry of authClaims (authority-level claims), all with the same provisioners.
 //   x5c     X5C, tokens signed with a leaf of a separate root
 //   oidc    OIDC against a loopback discovery endpoint; admins = adminEmail
+//   neb     Nebula: tokens signed with the key of a Nebula host certificate issued by a local Nebula CA
+//   k8sSA-default  Kubernetes service account tokens signed with a local key
 package main
 
 import (
@@ -38,6 +42,7 @@ import (
 	"strings"
 	"time"
 
+	nebula "github.com/slackhq/nebula/cert"
 	"go.step.sm/crypto/jose"
 	"go.step.sm/crypto/minica"
 	"go.step.sm/crypto/randutil"
@@ -55,7 +60,9 @@ type ExtJ struct {
 }
 
 type Case struct {
-	Prov    string // jwk | jwktpl | jwkdis | x5c | oidc
+	NebHost int    // nebula: which host certificate of nebHosts signs the token
+	Auth    int    // index into authClaims: which authority (authority-level claims) serves the request
+	Prov    string // jwk | jwktpl | jwkdis | jwkc1..jwkc5 | x5c | oidc | nebula | k8ssa
 	Sub     string
 	SANs    []string
 	NoSANs  bool   // omit the sans claim
@@ -86,6 +93,48 @@ const (
 }`
 )
 
+// BC = the three boolean claims, each unset (nil) / true / false
+type BC struct{ DR, Ex, AE *bool }
+
+func bp(b bool) *bool { return &b }
+
+func (b BC) claims() *provisioner.Claims {
+	if b.DR == nil && b.Ex == nil && b.AE == nil {
+		return nil
+	}
+	return &provisioner.Claims{DisableRenewal: b.DR, DisableSmallstepExtensions: b.Ex, AllowRenewalAfterExpiry: b.AE}
+}
+
+func tri(b *bool) string {
+	if b == nil {
+		return "-"
+	}
+	return c.B(*b)
+}
+
+// authority-level claims (authority.claims in ca.json), one embedded authority each
+var authClaims = []BC{
+	{},
+	{DR: bp(true)},
+	{Ex: bp(true)},
+	{Ex: bp(false), DR: bp(true), AE: bp(true)},
+	{Ex: bp(true), DR: bp(false)},
+	{AE: bp(true)},
+	{DR: bp(false), Ex: bp(false), AE: bp(false)},
+	{DR: bp(true), AE: bp(true)},
+}
+
+// the provisioners' own claims
+var provClaims = map[string]BC{
+	"jwk": {}, "jwktpl": {}, "x5c": {}, "oidc": {}, "nebula": {}, "k8ssa": {},
+	"jwkdis": {Ex: bp(true)},
+	"jwkc1":  {Ex: bp(false)},
+	"jwkc2":  {DR: bp(true)},
+	"jwkc3":  {DR: bp(false), AE: bp(true)},
+	"jwkc4":  {Ex: bp(true), DR: bp(true)},
+	"jwkc5":  {Ex: bp(false), DR: bp(true), AE: bp(false)},
+}
+
 var provOID = asn1.ObjectIdentifier{1, 3, 6, 1, 4, 1, 37476, 9000, 64, 1}
 
 func oidOf(n int) asn1.ObjectIdentifier {
@@ -108,7 +157,8 @@ func oidNum(id asn1.ObjectIdentifier) (int, bool) {
 // ---------- environment ----------
 
 type env struct {
-	ca       *fixture.CA
+	cas      []*fixture.CA
+	ca       *fixture.CA // cas[0]: key material
 	x5cRoot  *minica.CA
 	x5cLeaf  *x509.Certificate
 	x5cKey   crypto.Signer
@@ -116,6 +166,62 @@ type env struct {
 	oidcIss  string
 	srv      *httptest.Server
 	rsaSmall *rsa.PrivateKey
+	nebHosts []nebHost
+	k8sKey   *ecdsa.PrivateKey
+}
+
+// a Nebula host certificate (signed by the Nebula CA registered with provisioner "neb") and its key
+type nebHost struct {
+	crt *nebula.NebulaCertificate
+	key *ecdsa.PrivateKey
+	ips []string // Details.Ips[i].IP.String()
+}
+
+// names and addresses of the Nebula host certificates the harness mints
+var nebSpecs = []struct {
+	name string
+	ips  []string
+}{
+	{"host-a.neb", []string{"10.1.1.7/16"}},
+	{"a@neb.example", []string{"10.1.1.8/16", "10.1.2.8/16"}},
+	{"10.1.1.9", []string{"10.1.1.9/16"}},
+	{"spiffe://neb/host-c", []string{"10.1.3.1/16"}},
+	{"Host-B.neb", []string{"10.1.4.1/16"}},
+}
+
+func newNebula() (pemCA []byte, hosts []nebHost) {
+	caKey := must(ecdsa.GenerateKey(elliptic.P256(), rand.Reader))
+	caECDH := must(caKey.ECDH())
+	_, caNet, _ := net.ParseCIDR("10.1.0.0/16")
+	nca := &nebula.NebulaCertificate{Details: nebula.NebulaCertificateDetails{Name: "VerifNebulaCA", Ips: []*net.IPNet{caNet}, Subnets: []*net.IPNet{},
+		NotBefore: time.Now().Add(-time.Minute), NotAfter: time.Now().Add(20 * time.Hour), PublicKey: caECDH.PublicKey().Bytes(), IsCA: true, Curve: nebula.Curve_P256}}
+	if err := nca.Sign(nebula.Curve_P256, caECDH.Bytes()); err != nil {
+		panic(err)
+	}
+	pemCA = must(nca.MarshalToPEM())
+	for _, sp := range nebSpecs {
+		hk := must(ecdsa.GenerateKey(elliptic.P256(), rand.Reader))
+		he := must(hk.ECDH())
+		h := nebHost{key: hk}
+		var nets []*net.IPNet
+		for _, cidr := range sp.ips {
+			ip, ipn, err := net.ParseCIDR(cidr)
+			if err != nil {
+				panic(err)
+			}
+			ipn.IP = ip.To4()
+			nets = append(nets, ipn)
+			h.ips = append(h.ips, ipn.IP.String())
+		}
+		h.crt = &nebula.NebulaCertificate{Details: nebula.NebulaCertificateDetails{Name: sp.name, Ips: nets, Subnets: []*net.IPNet{}, Groups: []string{"g"},
+			NotBefore: time.Now().Add(-time.Minute).Truncate(time.Second), NotAfter: time.Now().Add(19 * time.Hour), PublicKey: he.PublicKey().Bytes(),
+			Issuer: must(nca.Sha256Sum()), InvertedGroups: map[string]struct{}{"g": {}}, Curve: nebula.Curve_P256}}
+		if err := h.crt.Sign(nebula.Curve_P256, caECDH.Bytes()); err != nil {
+			panic(err)
+		}
+		hosts = append(hosts, h)
+	}
+	return
 }
 
 func must[T any](v T, err error) T {
@@ -154,31 +260,42 @@ func newEnv() (*env, error) {
 		NotBefore:   time.Now().Add(-time.Hour), NotAfter: time.Now().Add(20 * time.Hour),
 	}))
 	roots := pem.EncodeToMemory(&pem.Block{Type: "CERTIFICATE", Bytes: e.x5cRoot.Root.Raw})
-	tr := true
 	// the JWK provisioners share the fixture key: build it first to learn the key
 	ca0 := must(fixture.New(fixture.Opts{NoDB: true}))
 	pub := ca0.JWK.Public()
 	ca0.Close()
-	provs := provisioner.List{
-		&provisioner.JWK{Type: "JWK", Name: "jwktpl", Key: &pub,
-			Options: &provisioner.Options{X509: &provisioner.X509Options{Template: customTpl}}},
-		&provisioner.JWK{Type: "JWK", Name: "jwkdis", Key: &pub,
-			Claims: &provisioner.Claims{DisableSmallstepExtensions: &tr}},
-		&provisioner.X5C{Type: "X5C", Name: "x5c", Roots: roots},
-		&provisioner.OIDC{Type: "OIDC", Name: "oidc", ClientID: oidcClient,
-			ConfigurationEndpoint: e.srv.URL + "/.well-known/openid-configuration", Admins: []string{adminEmail}},
+	pemNeb, hosts := newNebula()
+	e.nebHosts = hosts
+	e.k8sKey = must(ecdsa.GenerateKey(elliptic.P256(), rand.Reader))
+	k8sPub := pem.EncodeToMemory(&pem.Block{Type: "PUBLIC KEY", Bytes: must(x509.MarshalPKIXPublicKey(e.k8sKey.Public()))})
+	for _, ac := range authClaims {
+		provs := provisioner.List{
+			&provisioner.Nebula{Type: "Nebula", Name: "neb", Roots: pemNeb},
+			&provisioner.K8sSA{Type: "K8sSA", Name: provisioner.K8sSAName, PubKeys: k8sPub},
+			&provisioner.JWK{Type: "JWK", Name: "jwktpl", Key: &pub,
+				Options: &provisioner.Options{X509: &provisioner.X509Options{Template: customTpl}}},
+			&provisioner.X5C{Type: "X5C", Name: "x5c", Roots: roots},
+			&provisioner.OIDC{Type: "OIDC", Name: "oidc", ClientID: oidcClient,
+				ConfigurationEndpoint: e.srv.URL + "/.well-known/openid-configuration", Admins: []string{adminEmail}},
+		}
+		for _, name := range []string{"jwkdis", "jwkc1", "jwkc2", "jwkc3", "jwkc4", "jwkc5"} {
+			provs = append(provs, &provisioner.JWK{Type: "JWK", Name: name, Key: &pub, Claims: provClaims[name].claims()})
+		}
+		ca, err := fixture.New(fixture.Opts{NoDB: true, Provisioners: provs, From: ca0, Claims: ac.claims()})
+		if err != nil {
+			return nil, err
+		}
+		e.cas = append(e.cas, ca)
 	}
-	ca, err := fixture.New(fixture.Opts{NoDB: true, Provisioners: provs, From: ca0})
-	if err != nil {
-		return nil, err
-	}
-	e.ca = ca
+	e.ca = e.cas[0]
 	e.rsaSmall = must(rsa.GenerateKey(rand.Reader, 1024))
 	return e, nil
 }
 
 func (e *env) close() {
-	e.ca.Close()
+	for _, ca := range e.cas {
+		ca.Close()
+	}
 	e.srv.Close()
 }
 
@@ -220,7 +337,7 @@ func (e *env) token(k *Case, csr *x509.CertificateRequest) (string, error) {
 		base["cnf"] = map[string]any{"x5rt#S256": "!!not base64!!"}
 	}
 	switch k.Prov {
-	case "jwk", "jwktpl", "jwkdis":
+	case "jwk", "jwktpl", "jwkdis", "jwkc1", "jwkc2", "jwkc3", "jwkc4", "jwkc5":
 		base["iss"] = k.Prov
 		base["aud"] = fixture.Audience("/1.0/sign")
 		return signJWT(e.ca.JWK.Key, e.ca.JWK.Algorithm, map[string]any{"kid": e.ca.JWK.KeyID}, base)
@@ -229,6 +346,21 @@ func (e *env) token(k *Case, csr *x509.CertificateRequest) (string, error) {
 		base["aud"] = fixture.Audience("/1.0/sign") + "#x5c/x5c"
 		chain := []string{base64.StdEncoding.EncodeToString(e.x5cLeaf.Raw), base64.StdEncoding.EncodeToString(e.x5cRoot.Intermediate.Raw)}
 		return signJWT(e.x5cKey, "ES256", map[string]any{"x5c": chain}, base)
+	case "nebula":
+		if k.NebHost < 0 || k.NebHost >= len(e.nebHosts) {
+			return "", errors.New("no such nebula host")
+		}
+		h := e.nebHosts[k.NebHost]
+		base["iss"] = "neb"
+		base["aud"] = fixture.Audience("/1.0/sign") + "#nebula/neb"
+		return signJWT(h.key, "ES256", map[string]any{string(provisioner.NebulaCertHeader): must(h.crt.Marshal())}, base)
+	case "k8ssa":
+		delete(base, "sans")
+		base["iss"] = "kubernetes/serviceaccount"
+		base["sub"] = "system:serviceaccount:default:" + k.Sub
+		base["kubernetes.io/serviceaccount/namespace"] = "default"
+		base["kubernetes.io/serviceaccount/service-account.name"] = k.Sub
+		return signJWT(e.k8sKey, "ES256", nil, base)
 	case "oidc":
 		base["iss"] = e.oidcIss
 		base["aud"] = oidcClient
@@ -405,11 +537,25 @@ func (e *env) run(k *Case) (line, impl string, ok bool) {
 	credID := e.ca.JWK.KeyID
 	provName := k.Prov
 	mprov := "jwk"
+	if k.Auth < 0 || k.Auth >= len(e.cas) {
+		return "", "", false
+	}
+	ca := e.cas[k.Auth]
+	ac, pc := authClaims[k.Auth], provClaims[k.Prov]
 	switch k.Prov {
-	case "jwk", "jwktpl", "jwkdis":
+	case "jwk", "jwktpl", "jwkdis", "jwkc1", "jwkc2", "jwkc3", "jwkc4", "jwkc5":
 		genType = provisioner.TypeJWK
 	case "x5c":
 		genType, credID, mprov = provisioner.TypeX5C, "", "x5c"
+	case "nebula":
+		genType, credID, mprov = provisioner.TypeNebula, "", "nebula"
+		provName = "neb"
+		if k.NebHost < 0 || k.NebHost >= len(e.nebHosts) {
+			return "", "", false
+		}
+	case "k8ssa":
+		genType, credID, mprov = provisioner.TypeK8sSA, "", "k8ssa"
+		provName = provisioner.K8sSAName
 	case "oidc":
 		genType, credID, mprov = provisioner.TypeOIDC, oidcClient, "oidc"
 		if k.Email != "" && sanitizeEmail(k.Email) == sanitizeEmail(adminEmail) {
@@ -426,9 +572,10 @@ func (e *env) run(k *Case) (line, impl string, ok bool) {
 	for i, s := range k.SANs {
 		sans[i] = san(s)
 	}
-	if k.NoSANs || k.Prov == "oidc" {
+	if k.NoSANs || k.Prov == "oidc" || k.Prov == "k8ssa" {
 		sans = nil
 	}
+	nbn, nbi := "-", "-"
 	oem, oiss := "-", "-"
 	var tokNames []string
 	if k.Prov == "oidc" {
@@ -441,6 +588,13 @@ func (e *env) run(k *Case) (line, impl string, ok bool) {
 			oiss = san(iss.String())
 			tokNames = append(tokNames, iss.String())
 		}
+	} else if k.Prov == "nebula" {
+		h := e.nebHosts[k.NebHost]
+		nbn, nbi = san(h.crt.Details.Name), xlist(h.ips)
+		tokNames = k.SANs
+		if k.NoSANs || len(k.SANs) == 0 {
+			tokNames = append([]string{h.crt.Details.Name}, h.ips...)
+		}
 	} else {
 		tokNames = k.SANs
 		if k.NoSANs || len(k.SANs) == 0 {
@@ -448,7 +602,7 @@ func (e *env) run(k *Case) (line, impl string, ok bool) {
 		}
 	}
 	cnf := map[string]string{"": "-", "ok": "1", "bad": "0", "garbage": "!"}[k.Cnf]
-	if k.Prov == "oidc" {
+	if k.Prov == "oidc" || k.Prov == "k8ssa" {
 		cnf = "-"
 	}
 	var cips, curis []string
@@ -460,8 +614,8 @@ func (e *env) run(k *Case) (line, impl string, ok bool) {
 	}
 	keyok := k.Key != "rsa1024"
 	udRaw, udPresent := k.userData()
-	line = fmt.Sprintf("prov=%s tpl=%s dis=%s gen=%s sub=%s sans=%s cnf=%s oem=%s oiss=%s sig=%s ccn=%s cdns=%s cip=%s cem=%s curi=%s key=1 keyok=%s cext=%s ud=%s uext=%s uoth=%d enct=%s encc=%s case=x%s",
-		mprov, c.B(k.Prov == "jwktpl"), c.B(k.Prov == "jwkdis"), c.XB(gen.Value), san(k.Sub), c.List(sans), cnf, oem, oiss,
+	line = fmt.Sprintf("prov=%s tpl=%s adr=%s aex=%s aae=%s pdr=%s pex=%s pae=%s gen=%s sub=%s sans=%s cnf=%s oem=%s oiss=%s nbn=%s nbi=%s sig=%s ccn=%s cdns=%s cip=%s cem=%s curi=%s key=1 keyok=%s cext=%s ud=%s uext=%s uoth=%d enct=%s encc=%s case=x%s",
+		mprov, c.B(k.Prov == "jwktpl"), tri(ac.DR), tri(ac.Ex), tri(ac.AE), tri(pc.DR), tri(pc.Ex), tri(pc.AE), c.XB(gen.Value), san(k.Sub), c.List(sans), cnf, oem, oiss, nbn, nbi,
 		c.B(csr.CheckSignature() == nil), c.X(csr.Subject.CommonName), xlist(csr.DNSNames), xlist(cips), xlist(csr.EmailAddresses), xlist(curis),
 		c.B(keyok), extList(k.CExt), c.B(udPresent), extList(k.UExt), len(udRaw),
 		c.B(encodable(k.Sub, tokNames)), c.B(encodableCert(csr.Subject.CommonName, csr.DNSNames, csr.IPAddresses, csr.EmailAddresses, csr.URIs)),
@@ -474,8 +628,8 @@ func (e *env) run(k *Case) (line, impl string, ok bool) {
 				out = "crash"
 			}
 		}()
-		ctx := provisioner.NewContextWithMethod(authority.NewContext(context.Background(), e.ca.Auth), provisioner.SignMethod)
-		opts, err := e.ca.Auth.Authorize(ctx, tok)
+		ctx := provisioner.NewContextWithMethod(authority.NewContext(context.Background(), ca.Auth), provisioner.SignMethod)
+		opts, err := ca.Auth.Authorize(ctx, tok)
 		if err != nil {
 			return fmt.Sprintf("unauth:%d", statusOf(err))
 		}
@@ -483,7 +637,7 @@ func (e *env) run(k *Case) (line, impl string, ok bool) {
 		if udPresent {
 			so.TemplateData = json.RawMessage(udRaw)
 		}
-		chain, err := e.ca.Auth.SignWithContext(ctx, csr, so, opts...)
+		chain, err := ca.Auth.SignWithContext(ctx, csr, so, opts...)
 		if err != nil {
 			st := statusOf(err)
 			if st >= 500 {
